@@ -167,6 +167,16 @@ def renamed(schema, suffix='_o'):
     return ('msg', {k + suffix: v for k, v in schema[1].items()}, {k + suffix: v for k, v in schema[2].items()})
 
 
+def retyped(t):
+    """The same field tree with every leaf type changed (B -> N -> S -> B) and every array cut to length 1:
+    a decoy schema under which most references of a property written for the original are wrong."""
+    if isinstance(t, str):
+        return {'B': 'N', 'N': 'S', 'S': 'B'}[t]
+    if t[0] == 'arr':
+        return ('arr', retyped(t[1]), 1)
+    return ('msg', {k: retyped(v) for k, v in t[1].items()}, {k: v for k, v in t[2].items()})
+
+
 def atoms_for(schema, aliases=('A',), depth=3):
     """{sort: [atoms]} for the Grammar: every valid chain of the schema whose
     descriptor is a primitive or an array of primitives, rooted at the current
